@@ -11,10 +11,11 @@ EXTENDS Naturals, Integers, TLC, Json
 \*  "ntr"       not trivially copyable, no declaration, noexcept moves -> not relocatable
 \*  "throwmove" as "ntr" but its move operations may throw
 \*  "throwasg"  as "ntr" but its move ASSIGNMENT may throw (noexcept move constructor)
-SCats == {"trivial", "optout", "tr", "ntr", "throwmove", "throwasg"}
+\*  "ntrtd"     as "ntr" but trivially destructible (no destructor declared)
+SCats == {"trivial", "optout", "tr", "ntr", "throwmove", "throwasg", "ntrtd"}
 
 IsTR(cat) == cat \in {"trivial", "tr"}
-TrivDtor(cat) == cat \in {"trivial", "optout"}
+TrivDtor(cat) == cat \in {"trivial", "optout", "ntrtd"}
 NxMoveCtor(cat) == cat # "throwmove"
 NxMoveAsg(cat) == cat \notin {"throwmove", "throwasg"}
 PtrSize == 8
